@@ -25,6 +25,8 @@ one side only, tags on absent revisions, conflicting tags) with a clean or dirty
 working tree (edit, add, rename, chmod, unknown, pending merge, recorded conflict,
 missing file) are built in every layout x repository placement that real breezy
 can create, with the branch at the remembered location in sync, ahead or behind,
+also for branches WITHOUT commits (tip null:; plain, or with another branch merged
+into the tree: the tree's only parent is the merged tip) for every transition,
 and
  * every ordered (source layout, target) pair is driven through the real
    Reconfigure factory + apply() (quick tier: a seed-rotated third + a fixed
@@ -50,14 +52,16 @@ from the referenced branch; a working tree that exists before and after a step
 has the same entries, contents, exec bits, file ids, iter_changes output,
 parents, unknowns and conflicts; a tree with pending changes is never removed
 (unless forced); the revision of every tree parent (basis, pending merges) is
-still in the branch's repository; a created tree is the clean tree of the tip
+still in the branch's repository, and so is the whole history the tree refers to
+beyond the branch's (testament of every revision in the ancestry of the tree's
+parents); a created tree is the clean tree of the tip
 (its parent is the tip); a successful to_X yields layout X; a successful upgrade
 yields the default formats and keeps tip, testaments, tags, remembered locations,
 tree dump and status (also of a second branch in the shared repository); the
 location can always be opened afterwards.
 
-Findings on the unchanged tree (family-tagged, patches + repro in
-/var/tmp/imp-C51C52/c52): (1) reconfigure-pending-merge-revision-not-copied (and
+Findings of this check, FIXED in /repo (995730b tree-parent revisions, 8a6b4cf tag-conflict check; a regression is a
+plain violation; patches + repro were in /var/tmp/imp-C51C52/c52): (1) reconfigure-pending-merge-revision-not-copied (and
 reconfigure-tree-basis-revision-not-copied for a tree that is not at the branch
 tip) — to_standalone / to_tree / to_checkout / to_lightweight_checkout fetch only
 the branch tip, the revisions of the working tree's pending merges / basis are
@@ -87,6 +91,8 @@ locations); Convert's `while needs_format_conversion` -> `if` (oracle: knit tree
 left at format 4, + model mismatch on the passes); Converter3to4 dropping the
 pending merges (oracle: status/parents); branch converter chain spread over two
 passes (harmless for the result: T2 tie break on the converter sequence only).
+Seeded change C52b (to_standalone skips the fetch — and the copy of the revisions the tree refers to — when the
+branch tip is null:) -> oracle: the merged revision of a branch without commits is gone from the new repository.
 Harmless rewrites kept clean: tree flags of _plan_changes as boolean expressions,
 isinstance -> type identity in ConvertMetaToMeta.
 """
@@ -731,8 +737,12 @@ def check_chain(ctx, arg, res):
         prev_state = s["state"]
     line = "chain %s %s %s %s %s %s" % (probe_variant(), "T" if force else "F", ",".join(TCODE[t] for t in targets), res["state0"],
                                      enc_tags(obs0["tags"], names, vals), enc_tags(ref0["tags"], names, vals) if ref0 else "-")
-    if obs0["status"] and obs0["status"]["parents"] == [obs0["tip"]]:
+    if obs0["status"] and obs0["status"]["parents"] == ([obs0["tip"]] if obs0["tip"] != "null:" else []):
         res["state0"] += " U"
+        if obs0["tip"] == "null:" and res["state0"].split(" ")[1] == "F":
+            # the re-created (empty) tree of a branch without commits is the original one up to its root id, which is
+            # fresh in rich-root formats: "kept" and "clean" are the same observation here
+            impl = [x.replace(":clean:o:", ":kept:o:") for x in impl]
     else:
         ctx.count("start:tree-absent-or-not-at-tip")
     return case, line, " ".join(impl)
@@ -1107,6 +1117,10 @@ def upgrade_jobs(ctx):
 
 
 def run(ctx):
+    # create the user configuration (config dir, ignore file) BEFORE forking: concurrent first use in the pool workers
+    # races in bedding.ensure_config_dir_exists (FileExistsError)
+    from breezy import ignores
+    ignores.get_user_ignores()
     ctx.extra["model_variant_tagCheck"] = probe_variant()
     jobs = scenarios(ctx)
     results = ctx.pmap(run_chain, jobs)
